@@ -127,8 +127,19 @@ def run_scenario(ctx, exe, sc, label, stats, samples, model=True, nrandom=0, kin
     stats["rejected"] += len(rej)
 
 
+def _val(v):
+    # histogram children: the snapshot's sum stands for the value (observations are distinct powers of two)
+    return v["sum"] if isinstance(v, dict) else v
+
+
 def history_of(x):
-    calls = list(x["calls"])
+    calls = []
+    for c in x["calls"]:
+        if c["k"] == "collect":
+            c = dict(c, res=[[k, _val(v)] for k, v in c["res"]])
+        calls.append(c)
+    if x.get("fin", {}).get("collect") is not None:
+        x = dict(x, fin={"collect": [[k, _val(v)] for k, v in x["fin"]["collect"]]})
     big = max([c["ret"] for c in calls] + [0]) + 10
     fin = x.get("fin", {}).get("collect")
     if fin is not None:
@@ -146,7 +157,11 @@ def run(ctx):
         run_scenario(ctx, exe, S3, "S3", stats, samples, nrandom=100, kinds=["countervec"])
         run_scenario(ctx, exe, S6, "S6", stats, samples, nrandom=300, kinds=["intcountervec"])
         run_scenario(ctx, exe, S8, "S8", stats, samples, model=False, check=False, nrandom=40, kinds=["intcountervec"])
+        # composition: a vector of HISTOGRAMS (children are sharded histograms, updates are observe calls)
+        run_scenario(ctx, exe, S2, "S2h", stats, samples, model=False, check=False, nrandom=150, kinds=["histogramvec"])
     else:
+        for sc, lb in ((S1, "S1h"), (S2, "S2h"), (S3, "S3h"), (S6, "S6h")):
+            run_scenario(ctx, exe, sc, lb, stats, samples, model=False, check=False, nrandom=3000, kinds=["histogramvec"])
         run_scenario(ctx, exe, S8, "S8", stats, samples, model=False, check=False, nrandom=1500, kinds=["intcountervec", "countervec"])
         run_scenario(ctx, exe, S6, "S6", stats, samples, nrandom=3000, kinds=["intcountervec", "countervec"])
         run_scenario(ctx, exe, S7, "S7", stats, samples, model=False, nrandom=10000, kinds=["intcountervec"])
